@@ -15,6 +15,8 @@ mod models_full;
 #[cfg(feature = "full")]
 mod proofrun;
 #[cfg(feature = "full")]
+mod scen_c19;
+#[cfg(feature = "full")]
 mod scen_full;
 #[cfg(feature = "full")]
 mod scen_full2;
@@ -189,6 +191,8 @@ fn dispatch(ctx: &mut Ctx) {
         #[cfg(feature = "full")]
         "C09" => scen_full2::c09(ctx),
         #[cfg(feature = "full")]
+        "C19" => scen_c19::c19(ctx),
+        #[cfg(feature = "full")]
         "C10" => scen_full2::c10(ctx),
         #[cfg(feature = "full")]
         "C11" => scen_full2::c11(ctx),
@@ -220,6 +224,9 @@ fn replay(rep: &serde_json::Value) -> Result<(bool, String), String> {
     {
         if scenario.starts_with("c02.") || scenario.starts_with("c17.") || scenario.starts_with("c18.") || scenario.starts_with("c03.") || scenario.starts_with("c01.") {
             return scen_proof::replay(rep);
+        }
+        if scenario.starts_with("c19.") {
+            return scen_c19::replay(rep);
         }
         if scenario.starts_with("c13.") || scenario.starts_with("c14.") {
             return scen_full::replay(rep);
